@@ -306,6 +306,14 @@ func (c *Ctx) writeDistinct() string {
 	return p
 }
 
+// Recycle ends this worker process after a hang / watchdog (the stuck goroutines cannot be
+// removed); the driver restarts the shard after the journalled case (exit status 3).
+func (c *Ctx) Recycle() {
+	c.Progress(true)
+	c.Flush()
+	os.Exit(3)
+}
+
 // Done emits the final line.
 func (c *Ctx) Done(exhausted bool) {
 	st := c.snapshotStats()
